@@ -132,7 +132,10 @@ def gen_project(rnd, n_tags=12, programs=1, junk=True, big_tags=None, iid_base=N
     outer = b.udt("Outer", [("id", atomic(0xC4), 0), ("in1", inner, 0), ("arr", inner, 3), ("name", strs[1], 0), ("flags", atomic(0xD3), 2),
                             ("ok", atomic(0xC1), 0)])
     deep = b.udt("Deep", [("o", outer, 0), ("n", atomic(0xC2), 0), ("os", outer, 2)])
-    udts = [inner, flat, nine, outer, deep]
+    # look-alikes of string types: LEN / DATA members that are not a SINT array
+    fake1 = b.udt("NotStr1", [("LEN", atomic(0xC4), 0), ("DATA", atomic(0xC3), rnd.choice([4, 16]))])
+    fake2 = b.udt("NotStr2", [("LEN", atomic(0xC4), 0), ("DATA", atomic(0xC2), 0)])
+    udts = [inner, flat, nine, outer, deep, fake1, fake2]
     iid = iid_base if iid_base is not None else rnd.choice([1, 200, 250, 65500, 70000])
 
     def add(name, t, dims, scope="", kind="tag", **kw):
